@@ -40,8 +40,9 @@ STRUCT_WIDTH = {'Pt': 12, 'Outer': 16, 'Vec': 14, 'Grid': 18}
 
 class Gen:
   """Generates an acyclic (at bit level AND at block level) RTL design as Python source."""
-  def __init__(s, rng, name, size='small', with_ff=True, with_nets=True, with_children=True, with_constraints=True):
+  def __init__(s, rng, name, size='small', with_ff=True, with_nets=True, with_children=True, with_constraints=True, with_funcs=True, with_param=True):
     s.rng, s.name = rng, name
+    s.with_funcs, s.with_param = with_funcs, with_param
     s.lines = []          # construct body
     s.avail = []          # (expr_text, width, is_plain_signal)
     s.inputs = []         # (name, width)
@@ -51,6 +52,9 @@ class Gen:
     s.with_ff, s.with_nets, s.with_children, s.with_constraints = with_ff, with_nets, with_children, with_constraints
     s.regs = []
     s.features = set()
+    s.funcs = []          # (@s.func helper name, width): value-returning helpers shared by several blocks
+    s.cuts = {}           # signal written piecewise -> cut points
+    s.param = False       # construct( s, p=0 ): some blocks have a body that depends on the construct-time parameter
 
   def w(s):
     return s.rng.choice([1, 2, 3, 4, 7, 8, 8, 12, 16, 31, 32, 33, 64, 65])
@@ -71,6 +75,7 @@ class Gen:
     if W >= 2 and s.rng.random() < 0.45:
       k = s.rng.randrange(1, W)
       cuts = [0, k, W] if s.rng.random() < 0.6 or W < 4 else sorted({0, k, s.rng.randrange(1, W), W})
+      s.cuts[f's.{n}'] = cuts
       return [(f's.{n}[{a}:{b}]', b - a, None) for a, b in zip(cuts, cuts[1:])]
     return [(f's.{n}', W, None)]
 
@@ -85,11 +90,20 @@ class Gen:
     """an expression of width w over available sources"""
     rng = s.rng
     cands = [a for a in s.avail if not (isinstance(a[2], str))]
+    if s.funcs and rng.random() < 0.3:
+      cands = cands + [(f'{fn}()', fw, False) for fn, fw in s.funcs]
     e, ew, _ = rng.choice(cands)
     def fit(e, ew):
       if ew == w: return e
       if ew > w:
         lo = rng.randrange(0, ew - w + 1)
+        if e in s.cuts and rng.random() < 0.5:
+          # a read that strictly encloses one separately written piece of the signal on both sides
+          enc = [(a, b) for a, b in zip(s.cuts[e], s.cuts[e][1:]) if a >= 1 and b <= ew - 1 and b - a + 2 <= w]
+          if enc:
+            a, b = rng.choice(enc)
+            lo = rng.randrange(max(0, b + 1 - w), min(a - 1, ew - w) + 1)
+            s.features.add('read-encloses-written-piece')
         if e.endswith(']') and ':' in e.rsplit('[', 1)[-1]:
           # slice of a slice: re-base
           base, sl = e.rsplit('[', 1); a, b = sl[:-1].split(':'); a = int(a)
@@ -107,6 +121,7 @@ class Gen:
 
   def build(s):
     rng = s.rng
+    s.param = s.with_param and rng.random() < 0.25
     nin = rng.randrange(1, 4)
     for _ in range(nin):
       typ = ('struct', rng.choice(['Pt', 'Outer'])) if rng.random() < 0.25 else ('bits', s.w())
@@ -115,7 +130,7 @@ class Gen:
     nreg = rng.randrange(0, 4) if s.with_ff else 0
     regs = []
     for _ in range(nreg):
-      typ = ('struct', 'Pt') if rng.random() < 0.2 else ('bits', s.w())
+      typ = ('struct', 'Pt') if rng.random() < 0.2 else ('bits', 12 if rng.random() < 0.15 else s.w())
       n = s.new_sig('reg', typ); regs.append((n, typ)); s.add_avail(n, typ)
     listreg = None
     if s.with_ff and rng.random() < 0.35:
@@ -137,13 +152,18 @@ class Gen:
         s.lines.append(f'connect( s.{cn}.in_, {rng.choice(srcs)[0]} )')
         s.avail.append((f's.{cn}.out', cw, True)); children.append(cn); s.features.add('child:' + kind)
         continue
+      if s.with_funcs and rng.random() < 0.18 and len(s.funcs) < 4:
+        # a value-returning @s.func helper; later blocks (several of them) and later helpers call it
+        fw = s.w(); fn = f'h{len(s.funcs)}'
+        s.lines += ['@s.func', f'def {fn}():', f'  return {s.src_expr(fw)}']
+        s.funcs.append((fn, fw)); s.features.add('func-helper')
       typ = ('struct', rng.choice(['Pt', 'Outer'])) if rng.random() < 0.2 else ('bits', s.w())
       n = s.new_sig('out' if rng.random() < 0.3 else 'wire', typ)
       us = s.units(n, typ)
       if len(us) > 1: s.features.add('partial-writes')
       if typ[0] == 'struct': s.features.add('struct')
       # split the units between 1..2 blocks and possibly a net
-      groups = [us] if len(us) == 1 or rng.random() < 0.5 else [us[:1], us[1:]]
+      groups = [us] if len(us) == 1 or rng.random() < 0.4 else ([us[:1], us[1:]] if len(us) == 2 or rng.random() < 0.5 else [[u] for u in us])
       for g in groups:
         if s.with_nets and len(g) == 1 and rng.random() < 0.3:
           t, w, st = g[0]
@@ -188,10 +208,26 @@ class Gen:
               continue
           else:
             e1, e2 = s.src_expr(w), s.src_expr(w)
+            ssrc = [a for a in s.avail if isinstance(a[2], str) and STRUCT_WIDTH[a[2][7:]] == w]
+            if ssrc and t == f's.{n}' and rng.random() < 0.4:
+              e1 = rng.choice(ssrc)[0]; s.features.add('bits-from-struct')          # Bits signal @= struct-typed signal
           if cond:
             body += [f'if {cond}:', f'  {t} @= {e1}', 'else:', f'  {t} @= {e2}']; s.features.add('if')
           else:
             body.append(f'{t} @= {e1}')
+        if s.param and len(g) == 1 and g[0][2] is None and not cond and rng.random() < 0.45:
+          # the body depends on the construct-time parameter p; same block / target name in both variants
+          t, w, _ = g[0]; alt = s.src_expr(w)
+          if rng.random() < 0.5 and t == f's.{n}' and '()' not in alt + body[0]:
+            bi -= 1
+            s.lines += ['if p:', f'  {t} //= lambda: {alt}', 'else:', f'  {t} //= lambda: {body[0].split(" @= ", 1)[1]}']
+            s.features.add('param-dependent-lambda')
+          else:
+            # (pymtl3 caches block metadata per class and block NAME - documented convention in ComponentLevel2.
+            #  _cache_func_meta: different bodies need different names)
+            s.lines += ['if p:', '  @update', f'  def {bn}_alt():', f'    {t} @= {alt}', 'else:', '  @update', f'  def {bn}():'] + ['    ' + b for b in body]
+            s.features.add('param-dependent-block')
+          continue
         s.lines.append('@update')
         s.lines.append(f'def {bn}():')
         s.lines += ['  ' + b for b in body]
@@ -224,6 +260,9 @@ class Gen:
           w = None
         else:
           w = typ[1]; e = s.src_expr(w)
+          ssrc = [a for a in s.avail if isinstance(a[2], str) and STRUCT_WIDTH[a[2][7:]] == w]
+          if ssrc and rng.random() < 0.6:
+            e = rng.choice(ssrc)[0]; s.features.add('bits-reg-from-struct')     # Bits register <<= struct-typed signal
         r = rng.random()
         if r < 0.3:
           c = rng.choice([a for a in s.avail if not isinstance(a[2], str) and re.fullmatch(r's(\.[A-Za-z_0-9]+(\[\d+\])?)+', a[0])])
@@ -235,7 +274,13 @@ class Gen:
       s.lines += ['@update_ff', f'def f{fi}():'] + ['  ' + b for b in body]; fi += 1
     if listreg:
       k, lw = listreg
-      s.lines += ['@update_ff', f'def f{fi}():', f'  s.rl[0] <<= {s.src_expr(lw)}', f'  for i in range({k-1}):', f'    s.rl[i+1] <<= s.rl[i]']; fi += 1
+      if rng.random() < 0.5:
+        s.lines += ['@update_ff', f'def f{fi}():', f'  s.rl[0] <<= {s.src_expr(lw)}', f'  for i in range({k-1}):', f'    s.rl[i+1] <<= s.rl[i]']; fi += 1
+      else:
+        # the whole body is one loop with a branch inside (register-file style write enable)
+        c = rng.choice([a for a in s.avail if not isinstance(a[2], str) and re.fullmatch(r's(\.[A-Za-z_0-9]+(\[\d+\])?)+', a[0])])
+        s.lines += ['@update_ff', f'def f{fi}():', f'  for i in range({k}):', f'    if {c[0]}[i % {c[1]}]:', f'      s.rl[i] <<= s.rl[{k-1} - i]', '    else:', f'      s.rl[i] <<= {s.src_expr(lw)}']; fi += 1
+        s.features.add('ff-loop-with-branch')
     if fi: s.features.add('ff')
     s.wrap = rng.random() < 0.3
     if s.wrap: s.features.add('wrapped-one-level-down')
@@ -243,16 +288,17 @@ class Gen:
 
   def source(s):
     body = '\n'.join('    ' + l for l in s.lines)
+    sig = 's, p=0' if s.param else 's'
     if not getattr(s, 'wrap', False):
-      return STRUCT_SRC + f'\nclass {s.name}( Component ):\n  def construct( s ):\n{body}\n'
+      return STRUCT_SRC + f'\nclass {s.name}( Component ):\n  def construct( {sig} ):\n{body}\n'
     # the generated component sits one level below the top: exercises per-component grouping code paths
-    inner = f'\nclass {s.name}_inner( Component ):\n  def construct( s ):\n{body}\n'
-    w = ['s.d = %s_inner()' % s.name]
+    inner = f'\nclass {s.name}_inner( Component ):\n  def construct( {sig} ):\n{body}\n'
+    w = ['s.d = %s_inner(%s)' % (s.name, ' p ' if s.param else '')]
     for n, typ in s.inputs:
       t = typ[1] if typ[0] == 'struct' else str(typ[1])
       w += [f's.{n} = InPort( {t} )', f'connect( s.{n}, s.d.{n} )']
     wb = '\n'.join('    ' + l for l in w)
-    return STRUCT_SRC + inner + f'\nclass {s.name}( Component ):\n  def construct( s ):\n{wb}\n'
+    return STRUCT_SRC + inner + f'\nclass {s.name}( Component ):\n  def construct( {sig} ):\n{wb}\n'
 
 _modcount = [0]
 def load_source(ctx, src, name):
@@ -279,8 +325,10 @@ def kahn_random(V, E, rng):
       if ind[v] == 0: ready.append(v)
   return order if len(order) == len(V) else None
 
-def build(cls, sched, rng=None, ff_perm=None, seed=0):
-  """elaborate + apply a scheduling pass group. Returns top. Raises whatever the passes raise."""
+def build(cls, sched, rng=None, ff_perm=None, seed=0, prefer=None):
+  """elaborate + apply a scheduling pass group. Returns top. Raises whatever the passes raise.
+  prefer=(b, a) (indices into Footprints(top).comb, only with sched='forced'): the linear extension of pymtl3's
+  constraint graph that runs block b and its ancestors first and block a afterwards (None if the graph orders a before b)"""
   import pymtl3
   from pymtl3.passes.sim.GenDAGPass import GenDAGPass
   from pymtl3.passes.sim.SimpleSchedulePass import SimpleSchedulePass
@@ -296,7 +344,22 @@ def build(cls, sched, rng=None, ff_perm=None, seed=0):
     GenDAGPass()(top); WrapGreenletPass()(top); SimpleSchedulePass()(top)
     if sched == 'forced':
       V = top._dag.final_upblks - top.get_all_update_ff()
-      o = kahn_random(sorted(V, key=lambda b: b.__name__ + repr(top._dag.genblk_writes.get(b, ''))), top._dag.all_constraints, rng)
+      Vs = sorted(V, key=lambda b: b.__name__ + repr(top._dag.genblk_writes.get(b, '')))
+      if prefer is None:
+        o = kahn_random(Vs, top._dag.all_constraints, rng)
+      else:
+        fpx = Footprints(top); bb, ba = fpx.comb[prefer[0]], fpx.comb[prefer[1]]
+        pred = {}
+        for (u, v) in top._dag.all_constraints: pred.setdefault(v, set()).add(u)
+        anc, todo = {bb}, [bb]
+        while todo:
+          x = todo.pop()
+          for u in pred.get(x, ()):
+            if u not in anc and u in V: anc.add(u); todo.append(u)
+        if ba in anc: return None
+        o1 = kahn_random([v for v in Vs if v in anc], top._dag.all_constraints, rng)
+        o2 = kahn_random([v for v in Vs if v not in anc], top._dag.all_constraints, rng)
+        o = None if o1 is None or o2 is None else o1 + o2
       assert o is not None
       top._sched.update_schedule = o
     if ff_perm is not None:
